@@ -263,6 +263,21 @@ def correspond(ctx, corr):
             f = bf(d)
             if str(f) != "%s(%d)" % (bf.__name__, d) or len(f) != 8 or f.error != (bf is fr.BackwardFrameError):
                 corr.violate("frame:backward", "%s(%d)" % (bf.__name__, d), "8-bit frame", str(f))
+    # equality is "same width and same bits" for every kind of frame: the subclass and the framing-error mark of a
+    # backward frame are not part of it (all ordered pairs of the five kinds, equal and unequal contents)
+    kinds = [("Frame", lambda d: fr.Frame(8, d)), ("ForwardFrame", lambda d: fr.ForwardFrame(8, d)),
+             ("BackwardFrame", fr.BackwardFrame), ("BackwardFrameError", fr.BackwardFrameError),
+             ("Frame-from-bytes", lambda d: fr.Frame(8, bytes([d])))]
+    for (na, ma), (nb, mb) in itertools.product(kinds, kinds):
+        for da, db in ((0, 0), (255, 255), (0x5A, 0x5A), (0, 1), (255, 254)):
+            a, b = ma(da), mb(db)
+            want = da == db
+            got = (bool(a == b), bool(a != b))
+            if got != (want, not want):
+                corr.violate("frame:eq-kinds", "%s(%d) vs %s(%d)" % (na, da, nb, db),
+                             "== %s, != %s" % (want, not want), "== %s, != %s" % got,
+                             "equality holds exactly when width and bits agree")
+            corr.bump("eq-kinds")
     run.flush(ctx)
 
     # ---- several live frames of different widths, operations interleaved: a frame's behaviour must not
